@@ -128,10 +128,37 @@ func c16(c *Ctx) {
 		fin := c.fn(tr, "controlBuffer.finish")
 		one(c, "dequeueAll in finish", callsIn(fin, Callee(tr, "itemList.dequeueAll")))
 		fOrph := c.field(tr, "clientHeaders", "onOrphaned")
-		orph := one(c, "onOrphaned invocation in finish", callsIn(fin, FieldCall(fOrph)))
+		// the orphaning walk is in finish itself or in a helper of the package that finish calls with the drained list
+		orphs := callsIn(fin, FieldCall(fOrph))
+		var at ssa.Instruction // where, in finish, the orphaning happens
+		if len(orphs) == 0 {
+			for _, b := range fin.Blocks {
+				for _, in := range b.Instrs {
+					call, ok := in.(*ssa.Call)
+					if !ok {
+						continue
+					}
+					if g := call.Call.StaticCallee(); g != nil && g.Pkg == fin.Pkg && len(g.Blocks) > 0 && len(callsIn(g, FieldCall(fOrph))) > 0 {
+						orphs = append(orphs, callsIn(g, FieldCall(fOrph))...)
+						at = call
+						drained := false
+						for _, a := range call.Call.Args {
+							if DataDep(CallRes(Callee(tr, "itemList.dequeueAll"), 0))(a) {
+								drained = true
+							}
+						}
+						c.Expect(drained, call, fin, "orphans-the-drained-list", "the orphaning helper is not handed the list drained by finish")
+					}
+				}
+			}
+		}
+		orph := one(c, "onOrphaned invocation in finish", orphs)
+		if at == nil {
+			at = orph
+		}
 		c.ArgIs(orph, 0, "orphaned-with-ErrConnClosing", GlobalLoad(c.konst(tr, "ErrConnClosing")))
 		set := one(c, "store closed=true in finish", storesToField(fin, fClosed))
-		c.Dominates(set, orph, "closed-before-orphaning")
+		c.Dominates(set, at, "closed-before-orphaning")
 		sw := one(c, "trfChan.Swap in finish", callsIn(fin, CalleeX("sync/atomic", "Pointer.Swap")))
 		c.ArgIs(sw, 1, "swap-to-nil", ConstNil)
 		// not skipped on any path after closed was set
